@@ -437,6 +437,12 @@ def run(ctx: Ctx) -> None:
     ctx.call(scan_coverage_rule, "7t")
     ctx.call(pull_guards_rule, "9g")
     ctx.call(T.t_g5, "10/T.G5")
+    # a state a dependant still needs is removed only by the clean decision: its table (incl. which nodes count as reversible at all) and
+    # the run policies that the update tool substitutes for the default one (they must keep the scope-aware `is_finished`)
+    ctx.call(N.clean_decision_table, "14", True)
+    from .c10 import replaced_run_policies
+
+    ctx.call(replaced_run_policies, "15")
     from . import graphrules as GR
     from .c08 import session_identity
 
